@@ -43,8 +43,8 @@ type c04Block struct {
 
 type c04Plan struct {
 	noPlaceholder bool // C08 positions: a placeholder declaration is rendered by another renderer
-	classes  map[string]bool
-	excluded []string
+	classes       map[string]bool
+	excluded      []string
 }
 
 func c04HasTag(m Meta, tag string) bool {
